@@ -125,3 +125,7 @@ def run(ctx):
 # sensitivity pack (thorough tier): each seeded edit must be reported by the named rule instance
 MUTANTS = [{'name': 'epoch-ladder-off-by-one', 'file': 'crates/ordinals/src/epoch.rs', 'old': '    if sat < Self::STARTING_SATS[1] {\n      Epoch(0)\n    } else if sat < Self::STARTING_SATS[2] {', 'new': '    if sat < Self::STARTING_SATS[1] {\n      Epoch(0)\n    } else if sat < Self::STARTING_SATS[3] {', 'expect': ('R29.2', 'From>::from', 'Epoch(1)')},
            {'name': 'rarity-supply-wrong', 'file': 'crates/ordinals/src/rarity.rs', 'old': 'Self::Rare => 3_432,', 'new': 'Self::Rare => 3_437,', 'expect': ('R29.1', 'Rarity::supply', 'supply(Rare)')}]
+
+
+# behaviour-preserving edits (thorough tier): the rules must stay silent on every one of them
+NEUTRAL = [{'name': 'Sat::height: intermediate bindings', 'file': 'crates/ordinals/src/sat.rs', 'old': '    self.epoch().starting_height()\n      + u32::try_from(self.epoch_position() / self.epoch().subsidy()).unwrap()', 'new': '    let epoch = self.epoch();\n    let blocks = self.epoch_position() / epoch.subsidy();\n    epoch.starting_height() + u32::try_from(blocks).unwrap()'}]
